@@ -4,7 +4,10 @@ from . import unit_encode
 ID = 'C12'
 BUDGET_S = {'quick': 150, 'thorough': 1800}
 SHAPE_WALL_S = {'quick': 60, 'thorough': 300}
-FAMILY = 'UNIT-A: field layouts (size, byte_align, endian) enumerated; every field value symbolic'
+FAMILY = ('UNIT: field widths 1..64 with symbolic values (accepted <=> in signed-or-unsigned range); PIPE: generated ISA '
+          'definitions with min/max (numeric_bytecode, relative_address incl. offset from instruction end), numeric '
+          'enumerations, memory-zone membership (address, valid_address), sliced addresses sharing the MSBs of the '
+          'instruction address; operand value, statement address, min/max, zone bounds and dictionary values symbolic')
 BOUNDS = {'field_value': '-(2^(size+1)) <= v <= 2^(size+2)', 'bitvector_width': 96, 'fields_per_layout': '1..4',
           'sizes': '1..64'}
 ASSUMPTIONS = ['bit order inside a byte: most significant bit first (documented for big endian; for little endian '
@@ -13,4 +16,6 @@ from sx.shims import STUBS  # noqa
 
 
 def shapes(tier, seed):
-    return unit_encode.layouts(tier, seed, ['C12'])
+    from .isa_templates import instr_shapes
+    return instr_shapes(tier, seed, ['C12'], only=('t5', 't6', 't4', 't7', 't8', 't1:arg12', 't1:arg5', 't1:arg8')) \
+        + unit_encode.layouts(tier, seed, ['C12'])
